@@ -43,7 +43,12 @@ def gen_cases(rng, tier):
     for _ in range(n):
         pre = gen_batch(rng, "p", allow_many=False) if rng.random() < 0.4 else None
         cases.append({"is_fd": rng.random() < 0.5, "pre": pre, "batch": gen_batch(rng, "b"), "verbose": rng.random() < 0.3})
-    return cases, {"random": n}
+    huge = {"arg": "bhuge.bin", "content": {"pat": "41", "len": FULL + 2040}}
+    for is_fd in (True, False):
+        cases.append({"is_fd": is_fd, "pre": None, "verbose": False, "batch": [{"arg": "ba.dat", "content": {"hex": "41"}}, huge, {"eos": "--eos"}, {"arg": "bb.dat", "content": {"hex": "42"}}]})
+        cases.append({"is_fd": is_fd, "pre": [{"arg": "pa.dat", "content": {"hex": "41"}}], "verbose": True,
+                      "batch": [{"arg": "ba.dat", "content": {"hex": "41"}}, {"eos": "--eos"}, {"eos": "--eos"}, {"eos": "--eos"}, huge, {"eos": "--EOS"}, {"arg": "bb.dat", "content": {"hex": "42"}}]})
+    return cases, {"random": n, "fixed": 4}
 
 
 def sections(text):
